@@ -904,6 +904,26 @@ fn run_task(w: &mut World, out: &mut TraceOut, r: &mut Rng, t: i64, err_percent:
     }
 }
 
+/// like run_task, but the first `nrej` gates are answered with an error (each rejects one idle object
+/// when it is the first step of that object's check), the following ones with Ok
+fn run_task_rejecting(w: &mut World, out: &mut TraceOut, t: i64, mut nrej: usize) -> bool {
+    loop {
+        let l = match w.sched.state(t as usize) {
+            Yield::Done(_) => return true,
+            Yield::Gate { .. } => {
+                let o = if nrej > 0 { 1 } else { 0 };
+                nrej = nrej.saturating_sub(1);
+                vec![L_ENV, t, o, 0, 0]
+            }
+            Yield::Sem => return true,
+            _ => vec![L_STEP, t, 0, 0, 0],
+        };
+        if !run_label(w, out, l) {
+            return false;
+        }
+    }
+}
+
 /// fill the pool, return the objects in a random order, retain a random subset, reuse
 fn gen_order_trace(g: &mut Gen) -> TraceOut {
     let r = &mut g.rng;
@@ -938,6 +958,12 @@ fn gen_order_trace(g: &mut Gen) -> TraceOut {
             let target = if r.chance(80) { 2 + r.below(n as u64 - 1) as i64 } else { n as i64 + 1 };
             let t = w.sched.ntasks() as i64;
             ok = run_label(&mut w, &mut out, vec![L_START, t, OP_RESIZE, target, 0]) && run_task(&mut w, &mut out, r, t, 0);
+        }
+        if ok && r.chance(35) {
+            // one get that has several idle objects rejected in a row before it is served
+            let nrej = 1 + r.below(n as u64) as usize;
+            let t = w.sched.ntasks() as i64;
+            ok = run_label(&mut w, &mut out, vec![L_START, t, OP_GET, 1, 0]) && run_task_rejecting(&mut w, &mut out, t, nrej);
         }
         let k = 1 + r.below(n as u64);
         for _ in 0..k {
